@@ -21,19 +21,38 @@ Module FS := Tickit.RBFlushSpec.
 Module TS := Tickit.RBTermSim.
 Module SH := Tickit.RBFlushShown.
 
-(* ---- from the render buffer's pens (four attributes) to term.c's *)
+(* ---- from the render buffer's pens (C19's attribute maps) to term.c's.  Covered here: the four attributes
+   fg / bg (palette index, no RGB secondary), bold, underline style; [rbpen_okb] demands the other six absent *)
+Definition cv (v : Tickit.PenSpec.value) : aval :=
+  match v with
+  | Tickit.PenSpec.VBool b => VBool b
+  | Tickit.PenSpec.VInt z => VInt z
+  | Tickit.PenSpec.VCol i c =>
+      VCol i (option_map (fun c => mkRgb (Tickit.PenDefs.cr c) (Tickit.PenDefs.cg c) (Tickit.PenDefs.cb c)) c)
+  end.
 Definition pen_of_rb (p : RD.pen) : pen :=
   fun a => match a with
-           | AFg => option_map (fun i => VCol i None) (RD.p_fg p)
-           | ABg => option_map (fun i => VCol i None) (RD.p_bg p)
-           | ABold => option_map (fun b => VBool (negb (b =? 0))) (RD.p_b p)
-           | AUnder => option_map VInt (RD.p_u p)
+           | AFg => option_map cv (RD.p_fg p)
+           | ABg => option_map cv (RD.p_bg p)
+           | ABold => option_map cv (RD.p_bold p)
+           | AUnder => option_map cv (RD.p_under p)
            | _ => None
            end.
-Definition opt_okb (f : Z -> bool) (o : option Z) : bool := match o with Some v => f v | None => true end.
+Definition col_okb (o : option Tickit.PenSpec.value) : bool :=
+  match o with
+  | None => true
+  | Some (Tickit.PenSpec.VCol i None) => (-1 <=? i) && (i <=? 255)
+  | Some _ => false
+  end.
+Definition bool_okb (o : option Tickit.PenSpec.value) : bool :=
+  match o with None => true | Some (Tickit.PenSpec.VBool _) => true | Some _ => false end.
+Definition und_okb (o : option Tickit.PenSpec.value) : bool :=
+  match o with None => true | Some (Tickit.PenSpec.VInt u) => (0 <=? u) && (u <=? 3) | Some _ => false end.
+Definition absent (o : option Tickit.PenSpec.value) : bool := match o with None => true | Some _ => false end.
 Definition rbpen_okb (p : RD.pen) : bool :=
-  opt_okb (fun i => (-1 <=? i) && (i <=? 255)) (RD.p_fg p) && opt_okb (fun i => (-1 <=? i) && (i <=? 255)) (RD.p_bg p) &&
-  opt_okb (fun b => (b =? 0) || (b =? 1)) (RD.p_b p) && opt_okb (fun u => (0 <=? u) && (u <=? 3)) (RD.p_u p).
+  col_okb (RD.p_fg p) && col_okb (RD.p_bg p) && bool_okb (RD.p_bold p) && und_okb (RD.p_under p) &&
+  absent (RD.p_italic p) && absent (RD.p_reverse p) && absent (RD.p_strike p) && absent (RD.p_altfont p) &&
+  absent (RD.p_blink p) && absent (RD.p_sizepos p).
 
 (* the operations, as calls of the public API *)
 Definition api_of_termop (o : FD.termop) : api :=
@@ -54,10 +73,15 @@ Definition termop_okb (o : FD.termop) : bool :=
 (* ---- the rendition a render-buffer pen stands for on the terminal *)
 Definition rcol (i : Z) : colour := if i <? 0 then CDefault else CIdx i.
 Definition rund (colon : bool) (n : Z) : Z := if colon then n else if (n =? 0) || (n =? 1) || (n =? 2) then n else 1.
+Definition rcolv (v : Tickit.PenSpec.value) : colour :=
+  match v with Tickit.PenSpec.VCol i _ => rcol i | _ => CDefault end.
+Definition rboolv (v : Tickit.PenSpec.value) : bool := match v with Tickit.PenSpec.VBool b => b | _ => false end.
+Definition rintv (v : Tickit.PenSpec.value) : Z := match v with Tickit.PenSpec.VInt z => z | _ => 0 end.
+(* by the defaulted reads, so that equivalent pens (tickit_pen_equiv) have the same rendition *)
 Definition rend (colon : bool) (p : RD.pen) : attrs :=
-  mkAttrs (rcol (RD.attr_get RD.DFLT_COLOUR (RD.p_fg p))) (rcol (RD.attr_get RD.DFLT_COLOUR (RD.p_bg p)))
-          (negb (RD.attr_get RD.DFLT_BOOL (RD.p_b p) =? 0)) false
-          (rund colon (RD.attr_get RD.DFLT_INT (RD.p_u p))) false false false 0 false 0.
+  mkAttrs (rcolv (RD.preads p Tickit.PenDefs.FG)) (rcolv (RD.preads p Tickit.PenDefs.BG))
+          (rboolv (RD.preads p Tickit.PenDefs.BOLD)) false
+          (rund colon (rintv (RD.preads p Tickit.PenDefs.UNDER))) false false false 0 false 0.
 
 (* a VT cell against a cell of the abstract terminal: the glyph, and the pen's rendition -- for a blank
    it is enough that the visible background is the pen's (ECH leaves only the background) *)
@@ -92,10 +116,18 @@ Proof.
     rewrite Nat2Z.inj_succ. lia.
 Qed.
 
+Lemma cpw_ascii : forall c, 32 <= c <= 126 -> RD.cpw c = 1.
+Proof.
+  intros c H.
+  assert (A : forallb (fun k => RD.cpw (32 + Z.of_nat k) =? 1) (seq 0 95) = true) by (vm_compute; reflexivity).
+  rewrite forallb_forall in A. specialize (A (Z.to_nat (c - 32))).
+  rewrite Z2Nat.id in A by lia. replace (32 + (c - 32)) with c in A by lia.
+  apply Z.eqb_eq, A, in_seq. lia.
+Qed.
 Lemma printable_narrow : forall u, forallb printable u = true -> TS.narrow u.
 Proof.
   intros u H c Hc. rewrite forallb_forall in H. specialize (H c Hc). unfold printable in H.
-  unfold RD.cpw. destruct ((32 <=? c) && (c <=? 126)) eqn:E; [reflexivity|lia].
+  apply cpw_ascii. lia.
 Qed.
 
 (* ---- the simulation invariant: the driver's terminal object [t] (cached pen = converted logical pen
@@ -136,14 +168,19 @@ Proof.
     inversion H8; inversion H9; inversion H10; subst. reflexivity.
 Qed.
 
+Lemma rbpen_ok_parts : forall p, rbpen_okb p = true ->
+  col_okb (RD.p_fg p) = true /\ col_okb (RD.p_bg p) = true /\ bool_okb (RD.p_bold p) = true /\
+  und_okb (RD.p_under p) = true.
+Proof. intros p H. unfold rbpen_okb in H. repeat (apply andb_prop in H as [H ?]). auto. Qed.
+
 Lemma rbpen_ok_in_range : forall p, rbpen_okb p = true -> pen_in_range (pen_of_rb p).
 Proof.
-  intros p H a x E. unfold rbpen_okb, opt_okb in H. unfold pen_of_rb in E.
+  intros p H a x E. destruct (rbpen_ok_parts p H) as (H1 & H2 & H3 & H4). unfold pen_of_rb in E.
   destruct a; try discriminate E; unfold aval_in_range; cbn [attr_type].
-  - destruct (RD.p_fg p) as [i|]; [|discriminate E]. inversion E; subst. lia.
-  - destruct (RD.p_bg p) as [i|]; [|discriminate E]. inversion E; subst. lia.
-  - destruct (RD.p_b p) as [b|]; [|discriminate E]. inversion E; subst. exact I.
-  - destruct (RD.p_u p) as [u|]; [|discriminate E]. inversion E; subst. lia.
+  - destruct (RD.p_fg p) as [[b|z|i [c|]]|]; try discriminate; inversion E; subst. cbn in H1. cbn. lia.
+  - destruct (RD.p_bg p) as [[b|z|i [c|]]|]; try discriminate; inversion E; subst. cbn in H2. cbn. lia.
+  - destruct (RD.p_bold p) as [[b|z|i c]|]; try discriminate; inversion E; subst. exact I.
+  - destruct (RD.p_under p) as [[b|z|i c]|]; try discriminate; inversion E; subst. cbn in H4. lia.
 Qed.
 
 (* after set-pen of a render-buffer pen the rendition is the pen's *)
@@ -153,19 +190,19 @@ Lemma setpen_rend : forall colon rgb8 l tp' s (p : RD.pen), rbpen_okb p = true -
   s = rend colon p.
 Proof.
   intros colon rgb8 l tp' s p Hok [Hm Hf] Htp.
-  unfold rbpen_okb, opt_okb in Hok.
+  destruct (rbpen_ok_parts p Hok) as (H1 & H2 & H3 & H4).
   apply attrs_ext; [|rewrite Hf; reflexivity].
-  intros a. rewrite Hm, Htp. unfold cache_of, logical_set, pen_of_rb, rend, default_val.
+  intros a. rewrite Hm, Htp. unfold cache_of, logical_set, pen_of_rb, rend, default_val, RD.preads.
   destruct a; cbn [attr_type option_map conv_val vt_attr enc a_fg a_bg a_bold a_under a_italic a_reverse a_strike
-                   a_font a_blink a_sizepos COLOUR_DEFAULT]; unfold RD.attr_get, RD.DFLT_COLOUR, RD.DFLT_BOOL, RD.DFLT_INT.
-  - destruct (RD.p_fg p) as [i|]; cbn [option_map conv_val enc].
+                   a_font a_blink a_sizepos COLOUR_DEFAULT RD.pget].
+  - destruct (RD.p_fg p) as [[b|z|i [c|]]|]; try discriminate; cbn in H1; cbn [option_map cv conv_val enc rcolv].
     + destruct (256 <=? i) eqn:E; [lia|]. cbn [enc]. unfold rcol. destruct (i <? 0); reflexivity.
     + reflexivity.
-  - destruct (RD.p_bg p) as [i|]; cbn [option_map conv_val enc].
+  - destruct (RD.p_bg p) as [[b|z|i [c|]]|]; try discriminate; cbn in H2; cbn [option_map cv conv_val enc rcolv].
     + destruct (256 <=? i) eqn:E; [lia|]. cbn [enc]. unfold rcol. destruct (i <? 0); reflexivity.
     + reflexivity.
-  - destruct (RD.p_b p) as [b|]; reflexivity.
-  - destruct (RD.p_u p) as [u|]; cbn; unfold rund; [reflexivity|destruct colon; reflexivity].
+  - destruct (RD.p_bold p) as [[b|z|i c]|]; try discriminate; reflexivity.
+  - destruct (RD.p_under p) as [[b|z|i c]|]; try discriminate; cbn; unfold rund; [reflexivity|destruct colon; reflexivity].
   - reflexivity.
   - reflexivity.
   - reflexivity.
@@ -174,7 +211,7 @@ Proof.
   - reflexivity.
 Qed.
 Lemma rend_canon : forall colon p, rend colon (FD.canon_pen p) = rend colon p.
-Proof. intros colon p. unfold rend, FD.canon_pen. cbn [RD.p_fg RD.p_bg RD.p_b RD.p_u RD.attr_get]. reflexivity. Qed.
+Proof. intros colon p. reflexivity. Qed.
 
 (* ---- the four operations *)
 Lemma vt_ok_parts : forall v, vt_ok v -> mg_full v /\ md_awm (v_md v) = true /\ 0 < v_lines v /\ 0 < v_cols v /\
